@@ -67,6 +67,15 @@ impl Rng {
     }
     /// uniform in [lo, hi]
     pub fn range(&mut self, lo: u64, hi: u64) -> u64 {
+        // (an empty range happens when a changed contract lets a model value leave its domain, e.g. an
+        // epoch duration of 0: one draw is still consumed so that the stream keeps its shape)
+        if hi < lo {
+            let _ = self.next_u64();
+            return lo;
+        }
+        if hi - lo == u64::MAX {
+            return self.next_u64();
+        }
         lo + self.below(hi - lo + 1)
     }
     pub fn range128(&mut self, lo: u128, hi: u128) -> u128 {
